@@ -128,8 +128,9 @@ func (m *Machine) splitFork(s, sep *Term, limit int) []*Term {
 }
 
 type readerState struct {
-	rest *Term
-	size int // bufio buffer size (ReadLine returns at most this many bytes per call)
+	rest  *Term
+	size  int // bufio buffer size (ReadLine returns at most this many bytes per call)
+	epoch int // number of reads so far: ReadLine results are valid only within their epoch
 }
 
 func (m *Machine) readerKey(v Value) string {
@@ -282,7 +283,48 @@ func init() {
 		rest := mk("str.substr", SString, s, IntC(0), intSub(strLenInt(s), strLenInt(suf)))
 		return Ite(ok, rest, s)
 	})
+	algebraCutNL := func(m *Machine, s, sep *Term) (Value, bool) {
+		if m.Domain != DomAlgebra {
+			return nil, false
+		}
+		if c, ok := m.litValue(sep); !ok || c != "\n" {
+			panic(m.unsupported("Cut in the algebra domain with a separator other than \"\\n\""))
+		}
+		// first line / remainder are well-defined functions of the bytes (shared with the note contract)
+		if m.branch("cut.hasnl", App("uf.hasNewline", SBool, s)) {
+			return TupleV{App("uf.firstLine", SBytes, s), App("uf.afterFirstLine", SBytes, s), True}, true
+		}
+		return TupleV{s, m.strLit(""), False}, true
+	}
+	add("bytes.Cut", func(m *Machine, _ *Thread, _ *Frame, a []Value, _ ssa.Value) Value {
+		s, sep := m.termOf(a[0]), m.termOf(a[1])
+		if v, ok := algebraCutNL(m, s, sep); ok {
+			tv := v.(TupleV)
+			return TupleV{ByteSlice{T: tv[0].(*Term)}, ByteSlice{T: tv[1].(*Term)}, tv[2]}
+		}
+		if m.branch("cut.found", strContains(s, sep)) {
+			idx := mk("str.indexof", SInt, s, sep, IntC(0))
+			before := mk("str.substr", SString, s, IntC(0), idx)
+			start := intAdd(idx, strLenInt(sep))
+			after := mk("str.substr", SString, s, start, intSub(strLenInt(s), start))
+			return TupleV{ByteSlice{T: before}, ByteSlice{T: after}, True}
+		}
+		return TupleV{ByteSlice{T: s}, ByteSlice{Nil: true, T: StrC("")}, False}
+	})
+	add("strings.TrimSpace", func(m *Machine, _ *Thread, _ *Frame, a []Value, _ ssa.Value) Value {
+		s := str(a[0])
+		if c, ok := m.litValue(s); ok {
+			return m.strLit(strings.TrimSpace(c))
+		}
+		// uninterpreted and idempotent: it may or may not change its argument
+		r := App("uf.trimSpace", s.S, s)
+		m.assume(Eq(App("uf.trimSpace", s.S, r), r))
+		return r
+	})
 	add("strings.Cut", func(m *Machine, _ *Thread, _ *Frame, a []Value, _ ssa.Value) Value {
+		if v, ok := algebraCutNL(m, str(a[0]), str(a[1])); ok {
+			return v
+		}
 		if cf, isLit := m.litValue(str(a[1])); isLit && len(cf) == 1 && str(a[0]).S.K == KString {
 			if before, after, ok := m.cutAtByte(str(a[0]), cf[0]); ok {
 				return TupleV{before, after, True}
@@ -504,85 +546,11 @@ func init() {
 	})
 	add("(*bufio.Reader).ReadLine", func(m *Machine, _ *Thread, _ *Frame, a []Value, _ ssa.Value) Value {
 		rs := m.side[m.readerKey(a[0])].(*readerState)
-		rest := m.needString(rs.rest, "ReadLine")
-		nonEmpty := false
-		for _, pc := range pieces(rest) {
-			if pc.IsConst() && pc.Str != "" {
-				nonEmpty = true
-			}
-		}
-		if !nonEmpty && m.branch("readline.eof", Eq(rest, StrC(""))) {
-			return TupleV{ByteSlice{Nil: true, T: m.strLit("")}, False, m.errSentinelByName("io.EOF")}
-		}
-		nl := StrC("\n")
-		size := rs.size
-		// prefixChunk: no newline within the first `size` bytes and at least `size` bytes buffered:
-		// ReadLine hands out the full buffer with isPrefix = true (a trailing \r is held back).
-		prefixChunk := func() Value {
-			chunk := mk("str.substr", SString, rest, IntC(0), IntC(int64(size)))
-			if m.branch("readline.prefix.cr", strSuffixOf(StrC("\r"), chunk)) {
-				chunk = mk("str.substr", SString, rest, IntC(0), IntC(int64(size-1)))
-				rs.rest = mk("str.substr", SString, rest, IntC(int64(size-1)), intSub(strLenInt(rest), IntC(int64(size-1))))
-			} else {
-				rs.rest = mk("str.substr", SString, rest, IntC(int64(size)), intSub(strLenInt(rest), IntC(int64(size))))
-			}
-			return TupleV{ByteSlice{T: chunk}, True, IfaceV{}}
-		}
-		if before, after, ok := m.cutAtByte(rest, '\n'); ok {
-			// the first newline is syntactically determined; the buffer bound is decided from known
-			// lengths when possible, by the solver otherwise
-			var inbuf bool
-			if bl, known := m.lenKnown(before); known {
-				inbuf = bl <= size-1
-				if !inbuf {
-					if head, tail, ok2 := m.splitAt(rest, size); ok2 {
-						if ends, k2 := m.endsWithKnown(head, '\r'); k2 && !ends {
-							rs.rest = tail
-							return TupleV{ByteSlice{T: head}, True, IfaceV{}}
-						}
-					}
-					return prefixChunk()
-				}
-			} else {
-				inbuf = m.branch("readline.inbuf", intLE(strLenInt(before), IntC(int64(size-1))))
-			}
-			if inbuf {
-				rs.rest = after
-				line := before
-				if ends, known := m.endsWithKnown(before, '\r'); known {
-					if ends {
-						ps := pieces(before)
-						last := ps[len(ps)-1]
-						line = joinPieces(append(append([]*Term{}, ps[:len(ps)-1]...), StrC(last.Str[:len(last.Str)-1])))
-					}
-				} else {
-					cr := strSuffixOf(StrC("\r"), before)
-					line = Ite(cr, mk("str.substr", SString, before, IntC(0), intSub(strLenInt(before), IntC(1))), before)
-				}
-				return TupleV{ByteSlice{T: line}, False, IfaceV{}}
-			}
-			return prefixChunk()
-		}
-		idx := mk("str.indexof", SInt, rest, nl, IntC(0))
-		found := strContains(rest, nl)
-		inBuf := And(found, intLE(idx, IntC(int64(size-1))))
-		if m.branch("readline.found", inBuf) {
-			before := mk("str.substr", SString, rest, IntC(0), idx)
-			start := intAdd(idx, IntC(1))
-			after := mk("str.substr", SString, rest, start, intSub(strLenInt(rest), start))
-			rs.rest = after
-			// drop one trailing \r
-			cr := strSuffixOf(StrC("\r"), before)
-			line := Ite(cr, mk("str.substr", SString, before, IntC(0), intSub(strLenInt(before), IntC(1))), before)
-			return TupleV{ByteSlice{T: line}, False, IfaceV{}}
-		}
-		if m.branch("readline.short", intLT(strLenInt(rest), IntC(int64(size)))) {
-			rs.rest = StrC("")
-			return TupleV{ByteSlice{T: rest}, False, IfaceV{}}
-		}
-		return prefixChunk()
+		rs.epoch++
+		return m.tagVolatile(rs, m.readLine(rs))
 	})
 	add("io.ReadAll", func(m *Machine, _ *Thread, _ *Frame, a []Value, _ ssa.Value) Value {
+		m.bumpEpoch(a[0])
 		data, set := m.readerSource(a[0])
 		set(m.strLit(""))
 		return TupleV{ByteSlice{T: data}, IfaceV{}}
@@ -739,4 +707,121 @@ func shapeExists(line, ws, digit, anything *Term) *Term {
 	nondigitFirst := mk("re.++", SRe, mk("re.diff", SRe, &Term{Op: "re.allchar", S: SRe}, digit), anything)
 	tail := mk("re.union", SRe, mk("str.to_re", SRe, StrC("")), nondigitFirst)
 	return mk("str.in_re", SBool, line, mk("re.++", SRe, mk("str.to_re", SRe, StrC("old")), mk("re.+", SRe, ws), mk("re.+", SRe, digit), tail))
+}
+
+// readLine is the contract of bufio.Reader.ReadLine over the reader's remaining data.
+func (m *Machine) readLine(rs *readerState) Value {
+		rest := m.needString(rs.rest, "ReadLine")
+		nonEmpty := false
+		for _, pc := range pieces(rest) {
+			if pc.IsConst() && pc.Str != "" {
+				nonEmpty = true
+			}
+		}
+		if !nonEmpty && m.branch("readline.eof", Eq(rest, StrC(""))) {
+			return TupleV{ByteSlice{Nil: true, T: m.strLit("")}, False, m.errSentinelByName("io.EOF")}
+		}
+		nl := StrC("\n")
+		size := rs.size
+		// prefixChunk: no newline within the first `size` bytes and at least `size` bytes buffered:
+		// ReadLine hands out the full buffer with isPrefix = true (a trailing \r is held back).
+		prefixChunk := func() Value {
+			chunk := mk("str.substr", SString, rest, IntC(0), IntC(int64(size)))
+			if m.branch("readline.prefix.cr", strSuffixOf(StrC("\r"), chunk)) {
+				chunk = mk("str.substr", SString, rest, IntC(0), IntC(int64(size-1)))
+				rs.rest = mk("str.substr", SString, rest, IntC(int64(size-1)), intSub(strLenInt(rest), IntC(int64(size-1))))
+			} else {
+				rs.rest = mk("str.substr", SString, rest, IntC(int64(size)), intSub(strLenInt(rest), IntC(int64(size))))
+			}
+			return TupleV{ByteSlice{T: chunk}, True, IfaceV{}}
+		}
+		if before, after, ok := m.cutAtByte(rest, '\n'); ok {
+			// the first newline is syntactically determined; the buffer bound is decided from known
+			// lengths when possible, by the solver otherwise
+			var inbuf bool
+			if bl, known := m.lenKnown(before); known {
+				inbuf = bl <= size-1
+				if !inbuf {
+					if head, tail, ok2 := m.splitAt(rest, size); ok2 {
+						if ends, k2 := m.endsWithKnown(head, '\r'); k2 && !ends {
+							rs.rest = tail
+							return TupleV{ByteSlice{T: head}, True, IfaceV{}}
+						}
+					}
+					return prefixChunk()
+				}
+			} else {
+				inbuf = m.branch("readline.inbuf", intLE(strLenInt(before), IntC(int64(size-1))))
+			}
+			if inbuf {
+				rs.rest = after
+				line := before
+				if ends, known := m.endsWithKnown(before, '\r'); known {
+					if ends {
+						ps := pieces(before)
+						last := ps[len(ps)-1]
+						line = joinPieces(append(append([]*Term{}, ps[:len(ps)-1]...), StrC(last.Str[:len(last.Str)-1])))
+					}
+				} else {
+					cr := strSuffixOf(StrC("\r"), before)
+					line = Ite(cr, mk("str.substr", SString, before, IntC(0), intSub(strLenInt(before), IntC(1))), before)
+				}
+				return TupleV{ByteSlice{T: line}, False, IfaceV{}}
+			}
+			return prefixChunk()
+		}
+		idx := mk("str.indexof", SInt, rest, nl, IntC(0))
+		found := strContains(rest, nl)
+		inBuf := And(found, intLE(idx, IntC(int64(size-1))))
+		if m.branch("readline.found", inBuf) {
+			before := mk("str.substr", SString, rest, IntC(0), idx)
+			start := intAdd(idx, IntC(1))
+			after := mk("str.substr", SString, rest, start, intSub(strLenInt(rest), start))
+			rs.rest = after
+			// drop one trailing \r
+			cr := strSuffixOf(StrC("\r"), before)
+			line := Ite(cr, mk("str.substr", SString, before, IntC(0), intSub(strLenInt(before), IntC(1))), before)
+			return TupleV{ByteSlice{T: line}, False, IfaceV{}}
+		}
+		if m.branch("readline.short", intLT(strLenInt(rest), IntC(int64(size)))) {
+			rs.rest = StrC("")
+			return TupleV{ByteSlice{T: rest}, False, IfaceV{}}
+		}
+		return prefixChunk()
+	}
+
+// tagVolatile marks the line returned by ReadLine as pointing into the reader's buffer.
+func (m *Machine) tagVolatile(rs *readerState, v Value) Value {
+	tv, ok := v.(TupleV)
+	if !ok {
+		return v
+	}
+	if bs, ok := tv[0].(ByteSlice); ok && !bs.Nil {
+		bs.Vol, bs.Epoch = rs, rs.epoch
+		tv[0] = bs
+	}
+	return tv
+}
+
+// current returns the contents a byte slice denotes NOW. A ReadLine result used after a later
+// read on the same reader is, by bufio's documented contract, no longer valid: its contents are
+// arbitrary (the path is marked weak: violations found there need native confirmation).
+func (m *Machine) current(b ByteSlice) *Term {
+	if b.Vol != nil && b.Vol.epoch != b.Epoch {
+		m.weak = appendUniq(m.weak, []string{"use of a bufio.ReadLine result after a later read on the same reader (documented as invalid)"}, 20)
+		m.note("a ReadLine result was used after a later read on the same reader")
+		return m.fresh("stale.readline.bytes", b.T.S)
+	}
+	return b.T
+}
+
+func (m *Machine) bumpEpoch(v Value) {
+	if iv, ok := v.(IfaceV); ok {
+		v = iv.V
+	}
+	if p, ok := v.(Ptr); ok && p.O != nil {
+		if st, ok := m.side[fmt.Sprintf("reader:%d:%v", p.O.ID, p.Path)]; ok {
+			st.(*readerState).epoch++
+		}
+	}
 }
